@@ -23,8 +23,8 @@ pub fn prop() -> Prop {
             "the concatenation clause is only claimed for fonts without spacing (all built-in fonts)",
         ],
         subs: vec![
-            Sub::tape("layout", 70, 200_000, 10_000_000, |d, cx| layout(d, cx, false)),
-            Sub::tape("layout_spaced_fonts", 70, 100_000, 5_000_000, |d, cx| layout(d, cx, true)),
+            Sub::tape("layout", 300, 200_000, 10_000_000, |d, cx| layout(d, cx, false)),
+            Sub::tape("layout_spaced_fonts", 300, 100_000, 5_000_000, |d, cx| layout(d, cx, true)),
         ],
     }
 }
